@@ -138,8 +138,11 @@ def describe_place(f, p):
 LEGACY_TMP = False  # migration aid only
 
 
+DEEP = False  # look through named single-definition locals too (used to re-find a reviewed site after a value was hoisted into a `let`)
+
+
 def describe_operand(f, op, depth=6):
-    r = f.root_of(op)
+    r = f.root_of(op, through_named=True) if DEEP else f.root_of(op)
     if r[0] == "const":
         c = r[1]
         if "v" in c:
